@@ -8,18 +8,20 @@ import numpy as np
 from .. import lib, pfile
 
 ID = 'C04'
-LEAN_MODULE = 'PncProofs.C04Split'     # imports PncProofs.C04Files (and PncProofs.C04 through PncProofs.C01Files) and PncProofs.C01Seq
+LEAN_MODULE = 'PncProofs.C04SliceStack'     # imports PncProofs.C04Files (and PncProofs.C04 through PncProofs.C01Files) and PncProofs.C01Seq
 LEAN_FILE = 'PncProofs/C04.lean'
-MORE_LEAN_FILES = ['PncProofs/C04Files.lean', 'PncProofs/C04Split.lean']
+MORE_LEAN_FILES = ['PncProofs/C04Files.lean', 'PncProofs/C04Split.lean', 'PncProofs/C04SplitN.lean', 'PncProofs/C04SliceStack.lean']
 NAMESPACE = 'Props.C04'
 LEAN_CONE = ['PncModel.Arr', 'PncModel.NsStep', 'PncModel.Generated.NamespaceOrder', 'PncModel.File', 'PncProofs.ArrLemmas', 'PncProofs.C04',
              'PncProofs.FiberLemmas', 'PncProofs.C03', 'PncProofs.C02', 'PncProofs.ZipLemmas', 'PncProofs.C01', 'PncProofs.StackLemmas',
              'PncProofs.SliceLemmas', 'PncProofs.C01Files', 'PncProofs.C04Files', 'PncProofs.NamesLemmas', 'PncProofs.C06', 'PncProofs.C01Seq',
-             'PncProofs.C04Split']
+             'PncProofs.C04Split', 'PncProofs.C04SplitN', 'PncProofs.C04SliceStack']
 LEMMA_FILES = ['PncProofs/StackLemmas.lean']
 REQUIRED_THEOREMS = ['concat_take_drop', 'concat_split_all', 'take_concat', 'drop_concat', 'concat_shape',
                      'concatAll_eq', 'stackVar_data', 'orth_window', 'concat_atAxis', 'concat_windows', 'sliceFile_cut', 'stackVar_pieces',
-                     'pieces_vars', 'stack_split', 'stack_of_slices', 'stack_pieces_ok', 'split_then_stack']
+                     'pieces_vars', 'stack_split', 'stack_of_slices', 'stack_pieces_ok', 'split_then_stack',
+                     'concat_partition', 'stackVar_partition', 'stackFiles_cuts', 'stack_partition', 'pieces_are_slices', 'split_partition_then_stack',
+                     'compat_of_shapes', 'window_concat_left', 'window_concat_right', 'slice_of_stackVar', 'slice_of_stack', 'window_of_concatAll']
 RULE = ('kind split: a random file is cut along a random dimension into 1..4 consecutive pieces (cut points '
         'anywhere incl. empty-free partitions), pieces are built independently and stacked; kind indep: 2..4 '
         'files sharing all other dimensions, with their own data and stack-dimension lengths, variables '
@@ -218,6 +220,11 @@ def _impl_ioapi(case):
             o = pieces[0].stack(pieces[1:], dim)
             outs['stack'] = o
             outs['pncmfopen'] = pnc.pncmfopen(paths, format='ioapi', stackdim=dim)
+            # the other files given as a generator; one other file, opened from disk, given as it is (not in a list)
+            outs['stack(generator)'] = pieces[0].stack((pc for pc in pieces[1:]), dim)
+            if len(paths) == 2:
+                outs['stack(one file from disk)'] = pnc.pncopen(paths[0], format='ioapi').stack(pnc.pncopen(paths[1], format='ioapi'), dim)
+            res['names'] = list(outs)
             for nm, g in outs.items():
                 res[nm] = dict(st=c10.obs(g), bad=c10.coherent(g),
                                data={k: np.asarray(v[...]).tolist() for k, v in g.variables.items()})
@@ -235,7 +242,7 @@ def _oracle_ioapi(case, res):
         return 'splitting and stacking an IOAPI file raised %s %s' % (res['err'], res.get('msg'))
     o = res['orig']
     if case.get('order'):
-        for nm in ('stack', 'pncmfopen'):
+        for nm in res.get('names', ('stack', 'pncmfopen')):
             g = res[nm]
             for k, (dims, first) in res['pieces'][0].items():
                 if case['dim'] in dims:
@@ -246,7 +253,7 @@ def _oracle_ioapi(case, res):
                     return '%s of pieces %s along %s: %s is not the concatenation of the arguments in their order' % (
                         nm, case['order'], case['dim'], k)
         return None
-    for nm in ('stack', 'pncmfopen'):
+    for nm in res.get('names', ('stack', 'pncmfopen')):
         g = res[nm]
         if g['bad']:
             return '%s of the pieces along %s: %s' % (nm, case['dim'], '; '.join(g['bad']))
